@@ -59,7 +59,9 @@ def build(ctx, v, t):
         x = num(ctx, v)
         return float(x) if isinstance(x, (int, Fraction)) and not ctx.exact else x
     if isinstance(t, S.Lit):
-        return t.value
+        import copy as _copy
+
+        return _copy.deepcopy(t.value)
     if isinstance(t, S.Opt):
         return None if v is None else build(ctx, v, t.t)
     if isinstance(t, S.Tup):
@@ -197,3 +199,8 @@ def build_trial(ctx, f, raw):
     from syne_tune.backend.trial_status import Trial
 
     return Trial(trial_id=f["trial_id"], config={}, creation_time=datetime.datetime(2020, 1, 1))
+
+
+@builder("ns")
+def build_ns(ctx, f, raw):
+    return types.SimpleNamespace(**f)
